@@ -104,10 +104,11 @@ impl SymlinkStack<OwnedFd> {
     #[verifier::external_body]
     pub fn swap_link(&mut self, link_part: &OsString, dir_and_remaining: (&Rc<OwnedFd>, PathBuf), link_target: PathBuf) -> (r: Result<(), SymlinkStackError>)
         requires lineage(dir_and_remaining.0.id()),              // [C02+C12.swap_link.saved_directory_in_root]
+            cloexec(dir_and_remaining.0.id()),              // [C11.swap_link.saved_directory_is_close_on_exec]
     { unimplemented!() }
     #[verifier::external_body]
     pub fn pop_top_symlink(&mut self) -> (r: Option<(Rc<OwnedFd>, PathBuf)>)
-        ensures r matches Some((h, _)) ==> lineage(h.id())
+        ensures r matches Some((h, _)) ==> lineage(h.id()) && cloexec(h.id())
     { unimplemented!() }
 }
 /// A3 (procfs witness): the root's path was read, then the handle's path, then the root's path
